@@ -102,8 +102,10 @@ def main(tier):
     run = Run("C12", tier)
     sd = seed()
     n = 72 if tier == "quick" else 1200
-    jobs = corpus.all_singles(sd) + corpus.draw(n, sd, families=["mixed", "mixed", "branch", "chain", "lut", "wide", "single", "inplace", "inplace", "widen", "diamonds", "resize",
+    jobs = corpus.all_singles(sd, tier=tier) + corpus.draw(n, sd, families=["mixed", "mixed", "branch", "chain", "lut", "wide", "single", "inplace", "inplace", "widen", "diamonds", "resize",
                                                               "cpuouts", "cpuouts", "memcpy"])
+    if corpus.ops_families():     # operator-coverage families (memory-only operators, mixed precision, fused activations, fall-backs)
+        jobs += corpus.draw(10 if tier == "quick" else 200, sd + 3, families=corpus.ops_families())
     import random
     rng = random.Random(sd)
     for j in jobs:       # alignment is this property's own dimension: sweep it on every job
